@@ -55,11 +55,4 @@ fcase("F-J", "C17", "out-untouched",
       {"go.mod": GOMOD, "src/a_src.go": "package src\n\ntype Doer interface {\n\tDo(a, b, c string, n int) (string, error)\n\tMore(x []byte) error\n}\n"},
       cfg(["Doer"]), {"kind": "fault", "fault": "fsize", "prior": "good", "out_rel": "src/mock_gen.go", "fsize_blocks": 1},
       "RLIMIT_FSIZE of 512 bytes: os.WriteFile truncates the existing file and fails after 512 bytes")
-fcase("F-K", "C15", "fixed-point",
-      {"go.mod": GOMOD,
-       "p1/p1.go": "package p1\n\ntype T struct{ A int }\n", "p2/p2.go": "package p2\n\ntype T struct{ A int }\n",
-       "src/a_src.go": "package src\n\nimport al \"example.com/w/p1\"\n\ntype Doer interface {\n\tDo(x al.T) error\n\tSecond\n}\n",
-       "src/z_src.go": "package src\n\nimport al \"example.com/w/p2\"\n\ntype Second interface {\n\tDo2(y al.T) error\n}\n"},
-      cfg(["Doer"]), {"kind": "history", "out_name": "m_moq.go", "actions": ["gen", "gen"]},
-      "p1 and p2 are both aliased al in two source files; the generated file sorts between them, so alias harvesting differs on the second run")
 print("ok")
